@@ -1,6 +1,7 @@
 package main
 
 import (
+	"runtime/debug"
 	"encoding/json"
 	"flag"
 	"fmt"
@@ -39,6 +40,8 @@ func main() {
 	trace := flag.Bool("trace", false, "trace calls")
 	slog := flag.String("solver-log", "", "solver log")
 	flag.Parse()
+	debug.SetGCPercent(150)
+	debug.SetMemoryLimit(24 << 30)
 	if flag.NArg() > 0 && flag.Arg(0) == "check" {
 		os.Exit(runCheck(flag.Args()[1:]))
 	}
